@@ -109,6 +109,8 @@ fn show(args: &[String]) {
     println!("{} skeletons, {} ill-formed", sks.len(), bad);
 }
 
+const DECORATORS: [&str; 7] = ["paren", "neg", "not", "field", "call0", "paren2", "pos"];
+const LEAVES: [&str; 7] = ["int", "float", "numeric", "str", "none", "auto", "bool"];
 const MAIN_CTX: [&str; 10] = ["doc", "hash", "let", "codeblock", "arg", "math_i", "math_b", "mixed", "item", "content_ml"];
 const MORE_CTX: [&str; 6] = ["nested_code", "math_hash", "heading", "strong", "pattern", "param"];
 const CORE_CTX: [&str; 5] = ["doc", "hash", "let", "codeblock", "math_i"];
@@ -136,8 +138,32 @@ fn full_levels(m: &Model, thorough: bool, forms1: &[&str], forms_k2: &[&str], fo
     let mut v = vec![
         lvl("ctx*/k<=1/dev<=1", sweep::skeletons(m, &all, &[0, 1], &[Size::Short, Size::Medium]), forms1, &[]),
         lvl("main/k2/dev0", sweep::skeletons(m, &MAIN_CTX, &[2], &[Size::Short]), &[], &[]),
-        lvl("hash,let,math/k2/dev1", sweep::skeletons(m, &["hash", "let", "math_i"], &[2], &[Size::Short]), &forms_k2[..forms_k2.len().min(if thorough { 99 } else { 4 })], &[]),
+        if thorough {
+            lvl("hash,let,math/k2/dev1", sweep::skeletons(m, &["hash", "let", "math_i"], &[2], &[Size::Short]), forms_k2, &[])
+        } else {
+            lvl("let/k2/dev1", sweep::skeletons(m, &["let"], &[2], &[Size::Short]), &forms_k2[..2], &[])
+        },
     ];
+    // decorated spines: p1 . (paren | neg | not | field | call0 | paren2 | pos)^{1,2} . literal leaf
+    v.push(lvl(
+        "let,arg,codeblock/decorated spines/dev0",
+        sweep::decorated_skeletons(m, &["let", "arg", "codeblock"], &DECORATORS, 2, &LEAVES),
+        &[],
+        &[],
+    ));
+    // a directive and an ordinary comment together, around the argument kinds that are not printed verbatim
+    v.push(lvl(
+        "arg/named,spread,dict/directive+comment",
+        sweep::skeletons(m, if thorough { &["arg", "let"] } else { &["arg"] }, &[2], &[Size::Short])
+            .into_iter()
+            .filter(|sk| {
+                let n = m.prods[sk.spine[0].0].name;
+                matches!(n, "named" | "spread" | "clos1") || (thorough && matches!(n, "dict1" | "dict_keyed" | "dict_spread" | "let_fn"))
+            })
+            .collect(),
+        &["off_bc", "bc"],
+        &["off_bc", "bc"],
+    ));
     if thorough {
         v.push(lvl("ctx*/k<=1/dev2", sweep::skeletons(m, &all, &[1], &[Size::Short]), forms2, forms2));
         v.push(lvl("ctx*/k2/dev1", sweep::skeletons(m, &all, &[2], &[Size::Short]), forms1, &[]));
@@ -245,7 +271,7 @@ fn plan_for(id: &str, thorough: bool) -> Option<Plan> {
                 vec![
                     lvl("ctx*/k<=1/dev<=1", sweep::skeletons(&m, &all_ctx(), &[0, 1], &[Size::Short]), model::FORMS_ALL, &[]),
                     lvl("main/k2/dev0", sweep::skeletons(&m, &MAIN_CTX, &[2], &[Size::Short]), &[], &[]),
-                    lvl("hash,let/k2/dev1", sweep::skeletons(&m, &["hash", "let"], &[2], &[Size::Short]), &["nl", "bc"], &[]),
+                    lvl("let/k2/dev1", sweep::skeletons(&m, &["let"], &[2], &[Size::Short]), &["nl"], &[]),
                 ]
             },
             extra: vec![],
@@ -457,7 +483,7 @@ fn plan_for(id: &str, thorough: bool) -> Option<Plan> {
 
 fn caps(thorough: bool) -> Duration {
     let env = std::env::var("VERIF_WALL_CAP_S").ok().and_then(|s| s.parse::<u64>().ok());
-    Duration::from_secs(env.unwrap_or(if thorough { 35 * 60 } else { 50 }))
+    Duration::from_secs(env.unwrap_or(if thorough { 20 * 60 } else { 50 }))
 }
 
 fn run_check(id: &str, tier: Option<&str>, mode: Mode) -> i32 {
